@@ -319,7 +319,6 @@ def state_of(p):
 
 def wl_concurrent(ctx, rng, case_no):
     from rv.sched import scheduler as S
-    from rv.sched import coop
     nthreads = rng.choice([2, 2, 3, 4, 8])
     ntasks = rng.choice([1, 1, 2, 3])
     with_sets = rng.random() < 0.3
@@ -330,6 +329,38 @@ def wl_concurrent(ctx, rng, case_no):
         strategy = S.RandomWalk(sseed, switch_prob=rng.choice([0.05, 0.2, 0.5]))
     else:
         strategy = S.PCT(sseed, depth=int(strat_kind[3]), est_steps=rng.choice([200, 600, 1500]))
+    execute(ctx, prog, nthreads, ntasks, strategy, strat_kind, sseed)
+
+
+def wl_dfs(ctx, rng, case_no):
+    """Systematic: two threads, one or two mutator calls each on the same task; EVERY yield point (each executed
+    line of rich/progress.py, each bytecode of the mutators, each lock operation) is a decision point and every
+    placement of one preemption (two in the thorough tier, capped) is run."""
+    from rv.sched import scheduler as S
+    nthreads = 2
+    ntasks = 1
+    prog = gen_program(rng, nthreads, ntasks, rng.random() < 0.3)
+    prog = [ops[:rng.choice([1, 1, 2])] for ops in prog]
+    bound = 2 if ctx.tier == "thorough" else 1
+    gen = S.explore_bounded(lambda strat: execute(ctx, prog, nthreads, ntasks, strat, "dfs%d" % bound, 0, plan_of=strat),
+                            bound=bound, max_runs=3000 if ctx.tier == "thorough" else 400, kinds=None)
+    n = 0
+    exhausted = None
+    try:
+        while True:
+            next(gen)
+            n += 1
+    except StopIteration as stop:
+        exhausted = stop.value
+    ctx.count("dfs_programs")
+    ctx.count("dfs_schedules", n)
+    ctx.hist("dfs_space_exhausted", "yes" if exhausted else "no")
+
+
+def execute(ctx, prog, nthreads, ntasks, strategy, strat_kind, sseed, plan_of=None):
+    from rv.sched import scheduler as S
+    from rv.sched import coop
+    with_sets = any(op[0] == "set" for ops in prog for op in ops)
     sched = S.Scheduler(strategy, max_steps=400000)
     clock = Clock()
     p = make_progress(clock)
@@ -430,7 +461,8 @@ def wl_concurrent(ctx, rng, case_no):
     ctx.hist("strategy", strat_kind)
     ctx.hist("threads", nthreads)
     ctx.hist("switches", min(sched.switches // 5 * 5, 50))
-    ctx.case_done(("conc", repr(prog), strat_kind, sseed), shared >= 1 and sched.switches >= 2,
+    sig_plan = tuple(sorted(plan_of.plan.items())) if plan_of is not None else None
+    ctx.case_done(("conc", repr(prog), strat_kind, sseed, sig_plan), shared >= 1 and sched.switches >= 2,
                   {"program": prog, "strategy": strat_kind, "seed": sseed, "switches": sched.switches,
                    "steps": sched.step, "lock_order": order[:12]})
 
@@ -443,9 +475,10 @@ def _bit_in(value, amount):
 
 def workloads(tier):
     big = tier == "thorough"
-    return [WL("sequential", wl_sequential, 400000 if big else 12000),
+    return [WL("sequential", wl_sequential, 400000 if big else 40000),
             WL("track", wl_track, 3000 if big else 200),
-            WL("concurrent", wl_concurrent, 200000 if big else 2500)]
+            WL("concurrent", wl_concurrent, 200000 if big else 10000),
+            WL("single_preemption_dfs", wl_dfs, 600 if big else 32)]
 
 
 LEVEL_TEXT = ("Sequential: drives a real Progress through seeded random histories next to a reference model and checks "
